@@ -18,9 +18,9 @@ func c15(c *core.Ctx) map[string]interface{} {
 	c.Explanation = "Static constant/offset/contract check of the Milenage library (C15). Decided: (R15.const) milenageF2345: TEMP = E_K(RAND xor OPc); for f2/f5, f3, f4, f5* the rotation offsets are 0, 12, 8, 4 octets (r2..r5 = 0, 32, 64, 96 bits), the constants 1, 2, 4, 8 are xored into octet 15, each output is E_K(...) xor OPc, RES = OUT2[8:16], AK = OUT2[0:6], AK* = OUT5[0:6], and each optional output is written exactly under its own nil test; milenageF1: IN1 = SQN||AMF||SQN||AMF (copy offsets 0, 6, 8), rotation 8 octets, no constant, MAC-A = OUT1[0:8], MAC-S = OUT1[8:16]; GenerateOPC = E_K(OP) xor OP; MilenageGenerate: AUTN = (SQN xor AK) || AMF@6 || MAC-A@8; (R15.cmp) the comparison helper returns a negative constant inside its a<b branch, a positive constant inside its a>b branch and 0 only after all octets compared equal; (R15.flow) Milenage_check recovers SQN with f5's AK, takes the resynchronisation branch exactly when memcmp(rxSQN, ueSQN, 6) <= 0 (AUTS = (SQN_ue xor AK*) || f1*(SQN_ue, AMF 00 00)), otherwise accepts exactly when memcmp(MAC-A over (rxSQN, AUTN's AMF), AUTN[8:], 8) == 0; Milenage_auts recomputes AK*, SQN and f1* with AMF 00 00 and compares all 8 octets of MAC-S. (R15.pure) no package-level cache or scratch state is reachable from F1, F2345, GenerateOPC, MilenageGenerate, Milenage_check, Milenage_auts: every output is a function of the call's own K, OP/OPc, RAND, SQN, AMF. NOT decided: AES itself (crypto/aes) and numerical equality with TS 35.206 test data."
 	c.Assumptions = []string{"crypto/aes implements AES-128", "reflect.DeepEqual on two []uint8 compares length and every octet"}
 	r15cmp(c)
-	r15f2345(c)
-	r15f1(c)
-	r15opc(c)
+	r15f2345X(c)
+	r15f1X(c)
+	r15opcX(c)
 	r15generate(c)
 	r15check(c)
 	r15auts(c)
